@@ -133,6 +133,10 @@ func (g *Gen) ws() string { // mandatory whitespace
 // renderSelector returns the text and the wire form of the Selector node the parser must build.
 // ok=false when the path cannot be spelled at all.
 func (g *Gen) renderSelector(parts []string, style int) (text, wire string, ok bool) {
+	if len(parts) == 1 && parts[0] == "" {
+		// the segment-less JSON pointer `""` selects the member with the empty name
+		return `""`, "( sel ptr " + hx("") + " )", true
+	}
 	bexprOK, ptrOK := canBexprSel(parts), canPointer(parts)
 	if bexprOK && keywords[parts[0]] {
 		bexprOK = false // keep the expected-tree oracle exact: keyword-named roots only as JSON pointers
